@@ -266,6 +266,19 @@ def w_mismatch(spec, ctx, M):
                         "aead": {"aead_id": HPKE.AEAD(aead % 3 + 1)},
                         "enc-other-exchange": {"enc": other["enc"]},
                         "receiver-key": {"receiver_key": ECC.generate(curve=LIBNAME[curve])}}
+            # an equivalent but different serialisation of the SAME ephemeral public key: RFC 9180 binds enc as received
+            # (kem_context = enc || pkRm), so such a receiver derives other keys and must reject the sender's messages
+            enc = ex["enc"]
+            if curve == "Curve25519":
+                variants["enc-noncanonical-bit255"] = {"enc": enc[:-1] + bytes([enc[-1] ^ 0x80])}
+            elif curve == "Curve448":
+                u = int.from_bytes(enc, "little")
+                p448 = 2 ** 448 - 2 ** 224 - 1
+                if u + p448 < 2 ** 448:
+                    variants["enc-noncanonical-plus-p"] = {"enc": (u + p448).to_bytes(56, "little")}
+            else:
+                fl = (len(enc) - 1) // 2
+                variants["enc-compressed-point"] = {"enc": bytes([2 + (enc[-1] & 1)]) + enc[1:1 + fl]}
             if ex["psk_pair"]:
                 pid, psk = ex["psk_pair"]
                 variants["psk"] = {"psk": (pid, psk[:-1] + bytes([psk[-1] ^ 1]))}
